@@ -19,6 +19,12 @@ open Pepper.Comp Pepper.Sys
 
 /-! ### generic list / monad lemmas -/
 
+instance instDecidableEqExcept {ε α} [DecidableEq ε] [DecidableEq α] : DecidableEq (Except ε α)
+  | .ok a, .ok b => if h : a = b then isTrue (h ▸ rfl) else isFalse (fun h' => h (Except.ok.inj h'))
+  | .error a, .error b => if h : a = b then isTrue (h ▸ rfl) else isFalse (fun h' => h (Except.error.inj h'))
+  | .ok _, .error _ => isFalse (fun h => nomatch h)
+  | .error _, .ok _ => isFalse (fun h => nomatch h)
+
 /-- two lists of the same length related position by position (core has no `List.Forall₂`) -/
 inductive Forall₂ {α β} (R : α → β → Prop) : List α → List β → Prop
   | nil : Forall₂ R [] []
@@ -554,6 +560,59 @@ theorem apply_relations {t : CodeTable} {inst : Inst} {d : List (List Char × Li
   obtain ⟨outs, ho, rfl⟩ := (apply_ok_iff _ _ _ _).1 h
   exact ⟨outs, ho.imp (fun s o _ hso => applyComp_rel hso), rfl⟩
 
+/-! ### conversely: a design satisfying the relations is accepted, with exactly that output -/
+
+theorem assignBases_complete {t : CodeTable} {d : List (List Char × List Char)} {s : Comp.St} {l : List SeqE}
+    (h : ∀ e ∈ l, e.len ≠ 0 → AtomOk t d s e) :
+    assignBases t d s l = .ok (l.map (fun e => (s.pfx ++ e.name, atomVal d s e))) := by
+  induction l with
+  | nil => rfl
+  | cons e r ih =>
+    have ihr := ih (fun x hx => h x (List.mem_cons_of_mem _ hx))
+    simp only [assignBases]
+    by_cases h0 : (e.len == 0) = true
+    · simp only [h0, if_true, ihr, Except.map, List.map_cons, atomVal]
+    · have hn : e.len ≠ 0 := by simpa using h0
+      obtain ⟨v, w, hv, hlen, hw, hws⟩ := h e List.mem_cons_self hn
+      have h1 : (v.length != e.len) = false := by simp [hlen]
+      have h2 : (w != w) = false := by simp
+      simp only [h0, hv, h1, hw, hws, h2, ihr, Except.map, List.map_cons, atomVal, Bool.false_eq_true, if_false,
+        Option.getD_some]
+
+theorem partsOf_complete {pfx : String} {strands : List (String × Bool × List Char)} {names : List String}
+    {parts : List (List Char)}
+    (h : Forall₂ (fun (n : String) (p : List Char) =>
+      ∃ y, strands.find? (·.1 == pfx ++ n) = some y ∧ y.2.2 = p) names parts) :
+    partsOf pfx strands names = .ok parts := by
+  refine (mapM_ok_iff _ _ _).2 (h.imp (fun n p _ hnp => ?_))
+  obtain ⟨y, hy, rfl⟩ := hnp
+  simp only [hy]
+
+theorem applyComp_of_rel {t : CodeTable} {d : List (List Char × List Char)} {s : Comp.St} {o : Out}
+    (h : CompRel t d s o) : applyComp t d s = .ok o := by
+  have ha := assignBases_complete h.atoms
+  have hs : s.seqs.mapM (seqEntry t (atomAssign d s) s.pfx) = .ok o.seqs := by
+    refine (mapM_ok_iff _ _ _).2 (h.seqs.imp (fun e x _ hex => ?_))
+    exact seqEntry_ok_iff.2 ⟨x.2, isConcat_concatBases hex.2, by rw [← hex.1]⟩
+  have hst : s.strands.mapM (strandEntry t (atomAssign d s) s.pfx) = .ok o.strands := by
+    refine (mapM_ok_iff _ _ _).2 (h.strands.imp (fun e x _ hex => ?_))
+    exact strandEntry_ok_iff.2 ⟨x.2.2, isConcat_concatBases hex.2.2, by rw [← hex.1, ← hex.2.1]⟩
+  have hstr : s.structs.mapM (structEntry d s.pfx o.strands) = .ok o.structs := by
+    refine (mapM_ok_iff _ _ _).2 (h.structs.imp (fun e x _ hex => ?_))
+    obtain ⟨hx1, parts, hp, hx2, hl⟩ := hex
+    exact structEntry_ok_iff.2 ⟨parts, partsOf_complete hp, hx2 ▸ hl, by rw [← hx1, ← hx2]⟩
+  rw [applyComp_eq]
+  simp only [atomAssign] at hs hst
+  simp only [ha, hs, hst, hstr, bind, Except.bind, pure, Except.pure]
+
+/-- `apply` succeeds with output `out` exactly when the design satisfies the relations with `out` -/
+theorem apply_ok_iff_relations {t : CodeTable} {inst : Inst} {d : List (List Char × List Char)} {out : Out} :
+    apply t inst d = .ok out ↔ Relations t inst d out := by
+  constructor
+  · exact apply_relations
+  · rintro ⟨outs, ho, rfl⟩
+    exact (apply_ok_iff _ _ _ _).2 ⟨outs, ho.imp (fun s o _ hso => applyComp_of_rel hso), rfl⟩
+
 /-! ### (ii) only the relevant records are read -/
 
 theorem structEntry_congr {d d' : List (List Char × List Char)} {p : String}
@@ -673,5 +732,833 @@ theorem apply_single_corruption {t : CodeTable} (hl : t.lawful = true) {inst : I
         rw [hp] at hp'
         cases hp'
         exact hne (hlk'.trans hlk.symm)
+
+/-! ### well-formed trees: the `.seqs` entry of an atomic sequence is its design record -/
+
+/-- atomic names are distinct within the component, an atomic sequence is its own single base sequence,
+    strand names are distinct within the component (what `Comp.load` builds) -/
+def wfCompB (s : Comp.St) : Bool :=
+  decide ((s.baseSeqs.map (·.name)).Nodup)
+  && s.baseSeqs.all (fun e => decide (e.bases = [⟨e.name, false, e.len⟩]))
+  && decide ((s.strands.map (·.name)).Nodup)
+
+def wfB (inst : Inst) : Bool := (compsOf 64 inst).all wfCompB
+
+theorem lookup_map_name {pfx : String} {g : SeqE → List Char} {l : List SeqE}
+    (hn : (l.map (·.name)).Nodup) {e : SeqE} (he : e ∈ l) :
+    (l.map (fun e => (pfx ++ e.name, g e))).lookup (pfx ++ e.name) = some (g e) := by
+  induction l with
+  | nil => cases he
+  | cons a r ih =>
+    simp only [List.map_cons, List.nodup_cons, List.mem_map, not_exists, not_and] at hn
+    simp only [List.map_cons, List.lookup_cons]
+    rcases List.mem_cons.1 he with rfl | he'
+    · simp
+    · have hne : (pfx ++ e.name == pfx ++ a.name) = false := by
+        apply beq_false_of_ne
+        intro hc
+        exact hn.1 e he' ((String.append_right_inj pfx).1 hc)
+      rw [hne]
+      exact ih hn.2 he'
+
+/-- under `wfCompB`, the entry written for an atomic sequence is exactly the value assigned to it -/
+theorem CompRel.atomic_entry {t : CodeTable} {d : List (List Char × List Char)} {s : Comp.St} {o : Out}
+    (hr : CompRel t d s o) (hw : wfCompB s = true) {e : SeqE} (he : e ∈ s.baseSeqs) :
+    (s.pfx ++ e.name, atomVal d s e) ∈ o.seqs := by
+  simp only [wfCompB, Bool.and_eq_true, decide_eq_true_eq, List.all_eq_true] at hw
+  obtain ⟨⟨hnd, hb⟩, _⟩ := hw
+  have hes : e ∈ s.seqs := (List.mem_filter.1 he).1
+  obtain ⟨x, hx, hx1, parts, hp, hx2⟩ := hr.seqs.of_mem_left hes
+  rw [hb e he] at hp
+  cases hp with
+  | cons h1 h2 =>
+    cases h2
+    obtain ⟨v, hv, hrev⟩ := h1
+    simp only [Bool.false_eq_true, if_false] at hrev
+    have := lookup_map_name (pfx := s.pfx) (g := atomVal d s) hnd he
+    simp only [atomAssign] at hv
+    rw [this] at hv
+    cases hv
+    have hx' : x = (s.pfx ++ e.name, atomVal d s e) := by
+      rcases x with ⟨x1, x2⟩
+      simp only at hx1 hx2
+      subst hx1; subst hx2; subst hrev
+      simp
+    exact hx' ▸ hx
+
+/-- `Relations` read record by record on a well-formed tree: for every component `s` and every non-dummy
+    atomic sequence `e`, the written entry of `s.pfx ++ e.name` is the design's record of that name, it has
+    length `e.len`, and its reverse complement is the record of the starred name -/
+theorem Relations.atomic_entries {t : CodeTable} {inst : Inst} {d : List (List Char × List Char)} {out : Out}
+    (hrel : Relations t inst d out) (hw : wfB inst = true) :
+    ∀ s ∈ compsOf 64 inst, ∀ e ∈ s.baseSeqs, e.len ≠ 0 →
+      ∃ v, (s.pfx ++ e.name, v) ∈ out.seqs ∧ lookupLast d (s.pfx ++ e.name).toList = some v ∧
+        v.length = e.len ∧ t.wcStr v = lookupLast d (s.pfx ++ e.name ++ "*").toList := by
+  intro s hs e he h0
+  obtain ⟨outs, ho, rfl⟩ := hrel
+  obtain ⟨o, hoo, hr⟩ := ho.of_mem_left hs
+  have hws : wfCompB s = true := List.all_eq_true.1 hw s hs
+  obtain ⟨v, w, hv, hlen, hw', hstar⟩ := hr.atoms e he h0
+  refine ⟨v, ?_, hv, hlen, by rw [hw', hstar]⟩
+  have hm := hr.atomic_entry hws he
+  have hval : atomVal d s e = v := by
+    have : (e.len == 0) = false := by simpa using h0
+    simp only [atomVal, this, hv, Bool.false_eq_true, if_false, Option.getD_some]
+  rw [hval] at hm
+  exact List.mem_flatMap.2 ⟨o, hoo, hm⟩
+
+/-! ### what the two files list (C06) -/
+
+theorem CompRel.seq_names {t : CodeTable} {d : List (List Char × List Char)} {s : Comp.St} {o : Out}
+    (hr : CompRel t d s o) : o.seqs.map (·.1) = s.seqs.map (fun e => s.pfx ++ e.name) :=
+  hr.seqs.map_eq (fun _ _ h => h.1)
+
+theorem CompRel.strand_names {t : CodeTable} {d : List (List Char × List Char)} {s : Comp.St} {o : Out}
+    (hr : CompRel t d s o) : o.strands.map (·.1) = s.strands.map (fun e => s.pfx ++ e.name) :=
+  hr.strands.map_eq (fun _ _ h => h.1)
+
+theorem CompRel.struct_names {t : CodeTable} {d : List (List Char × List Char)} {s : Comp.St} {o : Out}
+    (hr : CompRel t d s o) : o.structs.map (·.1) = s.structs.map (fun e => s.pfx ++ e.name) :=
+  hr.structs.map_eq (fun _ _ h => h.1)
+
+theorem CompRel.real_strand_names {t : CodeTable} {d : List (List Char × List Char)} {s : Comp.St} {o : Out}
+    (hr : CompRel t d s o) :
+    (o.strands.filter (fun x => !x.2.1)).map (·.1) =
+      (s.strands.filter (fun e => !e.dummy)).map (fun e => s.pfx ++ e.name) :=
+  hr.strands.filter_map_eq (fun _ _ h => ⟨h.1, by rw [h.2.1]⟩)
+
+theorem flatMap_map_eq {α β γ} {R : α → β → Prop} {l : List α} {l' : List β} (h : Forall₂ R l l')
+    {f : α → List γ} {g : β → List γ} (hfg : ∀ a b, R a b → g b = f a) : l'.flatMap g = l.flatMap f := by
+  induction h with
+  | nil => rfl
+  | cons h1 _ ih => simp [hfg _ _ h1, ih]
+
+theorem Relations.seq_names {t : CodeTable} {inst : Inst} {d : List (List Char × List Char)} {out : Out}
+    (h : Relations t inst d out) :
+    out.seqs.map (·.1) = (compsOf 64 inst).flatMap (fun s => s.seqs.map (fun e => s.pfx ++ e.name)) := by
+  obtain ⟨outs, ho, rfl⟩ := h
+  simp only [catOuts, List.map_flatMap]
+  exact flatMap_map_eq ho (fun _ _ hr => hr.seq_names)
+
+theorem Relations.strand_names {t : CodeTable} {inst : Inst} {d : List (List Char × List Char)} {out : Out}
+    (h : Relations t inst d out) :
+    out.strands.map (·.1) = (compsOf 64 inst).flatMap (fun s => s.strands.map (fun e => s.pfx ++ e.name)) := by
+  obtain ⟨outs, ho, rfl⟩ := h
+  simp only [catOuts, List.map_flatMap]
+  exact flatMap_map_eq ho (fun _ _ hr => hr.strand_names)
+
+theorem Relations.struct_names {t : CodeTable} {inst : Inst} {d : List (List Char × List Char)} {out : Out}
+    (h : Relations t inst d out) :
+    out.structs.map (·.1) = (compsOf 64 inst).flatMap (fun s => s.structs.map (fun e => s.pfx ++ e.name)) := by
+  obtain ⟨outs, ho, rfl⟩ := h
+  simp only [catOuts, List.map_flatMap]
+  exact flatMap_map_eq ho (fun _ _ hr => hr.struct_names)
+
+theorem Relations.real_strand_names {t : CodeTable} {inst : Inst} {d : List (List Char × List Char)} {out : Out}
+    (h : Relations t inst d out) :
+    (out.strands.filter (fun x => !x.2.1)).map (·.1) =
+      (compsOf 64 inst).flatMap (fun s => (s.strands.filter (fun e => !e.dummy)).map (fun e => s.pfx ++ e.name)) := by
+  obtain ⟨outs, ho, rfl⟩ := h
+  simp only [catOuts, List.filter_flatMap, List.map_flatMap]
+  exact flatMap_map_eq ho (fun _ _ hr => hr.real_strand_names)
+
+/-! ### `apply` reads a tree only through its snapshot (C16) -/
+
+/-- what `apply` reads of one component -/
+structure SnapComp where
+  pfx : String
+  seqs : List (String × Bool × Nat × List BaseRef)       -- name, is-super, length, `base_seqs`
+  strands : List (String × Bool × List BaseRef)           -- name, dummy flag, `base_seqs`
+  structs : List (String × List String)                   -- name, names of its strands
+deriving Repr, DecidableEq
+
+def snapComp (s : Comp.St) : SnapComp :=
+  ⟨s.pfx, s.seqs.map (fun e => (e.name, e.isSup, e.len, e.bases)),
+   s.strands.map (fun e => (e.name, e.dummy, e.bases)), s.structs.map (fun e => (e.name, e.strands))⟩
+
+/-- the snapshot of a saved system: one `SnapComp` per component, in `System.components` order -/
+def snapshot (inst : Inst) : List SnapComp := (compsOf 64 inst).map snapComp
+
+theorem mapM_eq_of_map_eq {α α' β γ ε} {π : α → γ} {π' : α' → γ} {f : α → Except ε β} {g : α' → Except ε β}
+    (hfg : ∀ x y, π x = π' y → f x = g y) {l : List α} {l' : List α'} (h : l.map π = l'.map π') :
+    l.mapM f = l'.mapM g := by
+  induction l generalizing l' with
+  | nil => cases l' with
+    | nil => rfl
+    | cons _ _ => cases h
+  | cons a r ih =>
+    cases l' with
+    | nil => cases h
+    | cons a' r' =>
+      simp only [List.map_cons, List.cons.injEq] at h
+      simp only [List.mapM_cons]
+      rw [hfg a a' h.1, ih h.2]
+
+theorem assignBases_snap {t : CodeTable} {d : List (List Char × List Char)} {s s' : Comp.St}
+    (hp : s.pfx = s'.pfx) {l l' : List SeqE}
+    (h : l.map (fun e => (e.name, e.len)) = l'.map (fun e => (e.name, e.len))) :
+    assignBases t d s l = assignBases t d s' l' := by
+  induction l generalizing l' with
+  | nil => cases l' with
+    | nil => rfl
+    | cons _ _ => cases h
+  | cons a r ih =>
+    cases l' with
+    | nil => cases h
+    | cons a' r' =>
+      simp only [List.map_cons, List.cons.injEq, Prod.mk.injEq] at h
+      obtain ⟨⟨h1, h2⟩, h3⟩ := h
+      simp only [assignBases, hp, h1, h2, ih h3]
+
+theorem baseSeqs_snap (s : Comp.St) :
+    s.baseSeqs.map (fun e => (e.name, e.len)) =
+      ((snapComp s).seqs.filter (fun x => !x.2.1)).map (fun x => (x.1, x.2.2.1)) := by
+  simp only [St.baseSeqs, snapComp, List.filter_map, List.map_map]
+  rfl
+
+theorem applyComp_snap {t : CodeTable} {d : List (List Char × List Char)} {s s' : Comp.St}
+    (h : snapComp s = snapComp s') : applyComp t d s = applyComp t d s' := by
+  have hp : s.pfx = s'.pfx := congrArg SnapComp.pfx h
+  have hseqs : s.seqs.map (fun e => (e.name, e.isSup, e.len, e.bases)) =
+      s'.seqs.map (fun e => (e.name, e.isSup, e.len, e.bases)) := congrArg SnapComp.seqs h
+  have hstrands : s.strands.map (fun e => (e.name, e.dummy, e.bases)) =
+      s'.strands.map (fun e => (e.name, e.dummy, e.bases)) := congrArg SnapComp.strands h
+  have hstructs : s.structs.map (fun e => (e.name, e.strands)) =
+      s'.structs.map (fun e => (e.name, e.strands)) := congrArg SnapComp.structs h
+  have hbase : assignBases t d s s.baseSeqs = assignBases t d s' s'.baseSeqs :=
+    assignBases_snap hp (by rw [baseSeqs_snap, baseSeqs_snap, h])
+  rw [applyComp_eq, applyComp_eq, hbase, ← hp]
+  have h1 : ∀ assign, s.seqs.mapM (seqEntry t assign s.pfx) = s'.seqs.mapM (seqEntry t assign s.pfx) := by
+    intro assign
+    refine mapM_eq_of_map_eq (fun x y hxy => ?_) hseqs
+    simp only [Prod.mk.injEq] at hxy
+    simp only [seqEntry, hxy.1, hxy.2.2.2]
+  have h2 : ∀ assign, s.strands.mapM (strandEntry t assign s.pfx) = s'.strands.mapM (strandEntry t assign s.pfx) := by
+    intro assign
+    refine mapM_eq_of_map_eq (fun x y hxy => ?_) hstrands
+    simp only [Prod.mk.injEq] at hxy
+    simp only [strandEntry, hxy.1, hxy.2.1, hxy.2.2]
+  have h3 : ∀ strands, s.structs.mapM (structEntry d s.pfx strands) = s'.structs.mapM (structEntry d s.pfx strands) := by
+    intro strands
+    refine mapM_eq_of_map_eq (fun x y hxy => ?_) hstructs
+    simp only [Prod.mk.injEq] at hxy
+    simp only [structEntry, hxy.1, hxy.2]
+  simp only [h1, h2, h3]
+
+theorem foldlM_applyStep_snap {t : CodeTable} {d : List (List Char × List Char)} {l l' : List Comp.St}
+    (h : l.map snapComp = l'.map snapComp) (acc : Out) :
+    l.foldlM (applyStep t d) acc = l'.foldlM (applyStep t d) acc := by
+  induction l generalizing l' acc with
+  | nil => cases l' with
+    | nil => rfl
+    | cons _ _ => cases h
+  | cons a r ih =>
+    cases l' with
+    | nil => cases h
+    | cons a' r' =>
+      simp only [List.map_cons, List.cons.injEq] at h
+      simp only [List.foldlM_cons]
+      have : applyStep t d acc a = applyStep t d acc a' := by simp only [applyStep, applyComp_snap h.1]
+      rw [this]
+      cases applyStep t d acc a' with
+      | error e => rfl
+      | ok o => exact ih h.2 o
+
+theorem apply_snapshot {t : CodeTable} {d : List (List Char × List Char)} {i1 i2 : Inst}
+    (h : snapshot i1 = snapshot i2) : apply t i1 d = apply t i2 d := by
+  rw [apply_eq, apply_eq]
+  exact foldlM_applyStep_snap h _
+
+/-! ### reading then applying -/
+
+inductive Failure
+  | unreadable                      -- the design file does not parse (`read_design` raises)
+  | inconsistent (e : Err)          -- `apply_design` trips one of its assertions / a `KeyError`
+deriving Repr, DecidableEq
+
+/-- `finish` up to the point where the files are written: read the design text, apply it -/
+def finishText (t : CodeTable) (alpha : List Char) (inst : Inst) (text : List Char) : Except Failure Out :=
+  match readDesign alpha text with
+  | none => .error .unreadable
+  | some d => match apply t inst d with
+    | .ok o => .ok o
+    | .error e => .error (.inconsistent e)
+
+theorem finishText_ok_iff {t : CodeTable} {alpha : List Char} {inst : Inst} {text : List Char} {out : Out} :
+    finishText t alpha inst text = .ok out ↔ ∃ d, readDesign alpha text = some d ∧ apply t inst d = .ok out := by
+  unfold finishText
+  cases readDesign alpha text with
+  | none => simp
+  | some d =>
+    simp only [Option.some.injEq, exists_eq_left']
+    cases ha : apply t inst d with
+    | error e => simp
+    | ok o => simp
+
+/-! ### the writer and the reader round trip
+
+`render` mirrors `Convert.output` (`design/constraint_load.py`): per record the four lines
+`<int>:<name>`, `<seq> <float> <float> <int>`, target structure, mfe structure — each ended by a newline —
+and then the trailer `Total n(s*) = <float>` without a final newline.  The header number is carried along
+with the record (`Convert.output` prints the running index, `0` for starred views); the reader ignores it. -/
+
+def renderRec (num : List Char) (r : Rec) : List (List Char) :=
+  [num ++ ':' :: r.name, r.seq ++ r.fields.flatMap (' ' :: ·), r.target, r.mfe]
+
+def renderLines (rs : List (List Char × Rec)) (total : List Char) : List (List Char) :=
+  rs.flatMap (fun x => renderRec x.1 x.2) ++ [trailerPrefix ++ ' ' :: total]
+
+def unlines : List (List Char) → List Char
+  | [] => []
+  | [l] => l
+  | l :: r => l ++ '\n' :: unlines r
+
+def render (rs : List (List Char × Rec)) (total : List Char) : List Char := unlines (renderLines rs total)
+
+def okWord (p : Char → Bool) (w : List Char) : Bool := !w.isEmpty && w.all p
+
+/-- a record the writer can produce: no field empty, each over its own alphabet, numeric fields valid -/
+def wfRec (alpha : List Char) (x : List Char × Rec) : Bool :=
+  okWord Char.isDigit x.1 && okWord isVarChar x.2.name && okWord (alpha.contains ·) x.2.seq
+  && (match x.2.fields with
+      | [f1, f2, f3] => okWord isNumChar f1 && validFloat f1 && okWord isNumChar f2 && validFloat f2
+                        && okWord Char.isDigit f3
+      | _ => false)
+  && okWord isStructChar x.2.target && okWord isStructChar x.2.mfe
+
+/-- the sequence alphabet contains neither blanks nor a newline (true of every `pyparsing.Word` alphabet
+    the live grammar uses; checked by `decide` for the generated one) -/
+def okAlpha (alpha : List Char) : Bool := alpha.all (fun c => c != ' ' && c != '\t' && c != '\n')
+
+theorem splitLines_ne_nil (l : List Char) : splitLines l ≠ [] := by
+  cases l with
+  | nil => simp [splitLines]
+  | cons c r =>
+    simp only [splitLines]
+    split
+    · simp
+    · split <;> simp
+
+theorem splitLines_no_nl {l : List Char} (h : ∀ c ∈ l, c ≠ '\n') : splitLines l = [l] := by
+  induction l with
+  | nil => rfl
+  | cons c r ih =>
+    simp only [splitLines, ih (fun x hx => h x (List.mem_cons_of_mem _ hx))]
+    have : (c == '\n') = false := beq_false_of_ne (h c List.mem_cons_self)
+    simp [this]
+
+theorem splitLines_append_nl {l : List Char} (h : ∀ c ∈ l, c ≠ '\n') (rest : List Char) :
+    splitLines (l ++ '\n' :: rest) = l :: splitLines rest := by
+  induction l with
+  | nil =>
+    simp only [List.nil_append, splitLines]
+    cases hs : splitLines rest with
+    | nil => exact absurd hs (splitLines_ne_nil rest)
+    | cons a b => simp
+  | cons c r ih =>
+    simp only [List.cons_append, splitLines, ih (fun x hx => h x (List.mem_cons_of_mem _ hx))]
+    have : (c == '\n') = false := beq_false_of_ne (h c List.mem_cons_self)
+    simp [this]
+
+theorem splitLines_unlines {ls : List (List Char)} (hne : ls ≠ []) (h : ∀ l ∈ ls, ∀ c ∈ l, c ≠ '\n') :
+    splitLines (unlines ls) = ls := by
+  induction ls with
+  | nil => exact absurd rfl hne
+  | cons l r ih =>
+    cases r with
+    | nil => simp only [unlines]; exact splitLines_no_nl (h l List.mem_cons_self)
+    | cons l2 r2 =>
+      simp only [unlines]
+      rw [splitLines_append_nl (h l List.mem_cons_self)]
+      rw [ih (by simp) (fun x hx => h x (List.mem_cons_of_mem _ hx))]
+
+/-! #### words -/
+
+theorem dropWhile_ws_word {w rest : List Char} (hw : w ≠ []) (hws : ∀ c ∈ w, isWs c = false) :
+    (w ++ rest).dropWhile isWs = w ++ rest := by
+  cases w with
+  | nil => exact absurd rfl hw
+  | cons c r =>
+    simp only [List.cons_append]
+    rw [List.dropWhile_cons_of_neg (by simp [hws c List.mem_cons_self])]
+
+theorem takeWhile_word {p : Char → Bool} {w rest : List Char} (hp : ∀ c ∈ w, p c = true)
+    (hrest : ∀ c r, rest = c :: r → p c = false) : (w ++ rest).takeWhile p = w := by
+  induction w with
+  | nil =>
+    cases rest with
+    | nil => rfl
+    | cons c r => simp [hrest c r rfl]
+  | cons a r ih =>
+    simp only [List.cons_append, List.takeWhile_cons, hp a List.mem_cons_self, if_true]
+    rw [ih (fun x hx => hp x (List.mem_cons_of_mem _ hx))]
+
+/-- one word of a line: no leading blank -/
+theorem scanWords_word {p : Char → Bool} {ps : List (Char → Bool)} {w rest : List Char} (hw : w ≠ [])
+    (hp : ∀ c ∈ w, p c = true) (hws : ∀ c ∈ w, isWs c = false)
+    (hrest : ∀ c r, rest = c :: r → p c = false) :
+    scanWords (p :: ps) (w ++ rest) = (scanWords ps rest).map (w :: ·) := by
+  simp only [scanWords]
+  rw [dropWhile_ws_word hw hws, takeWhile_word hp hrest]
+  have : w.isEmpty = false := by cases w with
+    | nil => exact absurd rfl hw
+    | cons _ _ => rfl
+  simp [this]
+
+/-- one word of a line after a single blank -/
+theorem scanWords_blank_word {p : Char → Bool} {ps : List (Char → Bool)} {w rest : List Char} (hw : w ≠ [])
+    (hp : ∀ c ∈ w, p c = true) (hws : ∀ c ∈ w, isWs c = false)
+    (hrest : ∀ c r, rest = c :: r → p c = false) :
+    scanWords (p :: ps) (' ' :: (w ++ rest)) = (scanWords ps rest).map (w :: ·) := by
+  have h1 : scanWords (p :: ps) (' ' :: (w ++ rest)) = scanWords (p :: ps) (w ++ rest) := by
+    simp only [scanWords]
+    rw [List.dropWhile_cons_of_pos (by decide)]
+  rw [h1, scanWords_word hw hp hws hrest]
+
+theorem scanWords_end : scanWords [] [] = some [] := rfl
+
+theorem okWord_iff {p : Char → Bool} {w : List Char} : okWord p w = true ↔ w ≠ [] ∧ ∀ c ∈ w, p c = true := by
+  cases w <;> simp [okWord]
+
+/-- a character satisfying `p` is not `x` when `p x` is false -/
+theorem ne_of_pred {p : Char → Bool} {c x : Char} (h : p c = true) (hx : p x = false) : c ≠ x := by
+  intro hc; subst hc; rw [hx] at h; cases h
+
+theorem notWs_of_pred {p : Char → Bool} {c : Char} (h : p c = true) (h1 : p ' ' = false) (h2 : p '\t' = false) :
+    isWs c = false := by
+  have a := ne_of_pred h h1
+  have b := ne_of_pred h h2
+  simp [isWs, a, b]
+
+theorem digit_facts : Char.isDigit ' ' = false ∧ Char.isDigit '\t' = false ∧ Char.isDigit '\n' = false
+    ∧ Char.isDigit ':' = false ∧ Char.isDigit 'T' = false := by decide
+theorem var_facts : isVarChar ' ' = false ∧ isVarChar '\t' = false ∧ isVarChar '\n' = false
+    ∧ isVarChar ':' = false := by decide
+theorem num_facts : isNumChar ' ' = false ∧ isNumChar '\t' = false ∧ isNumChar '\n' = false := by decide
+theorem struct_facts : isStructChar ' ' = false ∧ isStructChar '\t' = false ∧ isStructChar '\n' = false := by decide
+
+theorem alpha_facts {alpha : List Char} (ha : okAlpha alpha = true) :
+    alpha.contains ' ' = false ∧ alpha.contains '\t' = false ∧ alpha.contains '\n' = false := by
+  simp only [okAlpha, List.all_eq_true, Bool.and_eq_true, bne_iff_ne] at ha
+  refine ⟨?_, ?_, ?_⟩ <;>
+  · apply Bool.eq_false_iff.2
+    intro hc
+    have := ha _ (List.contains_iff_mem.1 hc)
+    simp at this
+
+theorem trailerPrefix_eq : trailerPrefix = 'T' :: "otal n(s*) =".toList := by decide
+theorem trailerPrefix_length : trailerPrefix.length = 13 := by decide
+
+/-- a line starting with a digit is not the trailer -/
+theorem not_trailer {c : Char} {l : List Char} (hc : c.isDigit = true) :
+    ((c :: l).take trailerPrefix.length == trailerPrefix) = false := by
+  apply Bool.eq_false_iff.2
+  intro h
+  have := eq_of_beq h
+  rw [trailerPrefix_length, trailerPrefix_eq] at this
+  simp only [List.take_succ_cons, List.cons.injEq] at this
+  exact ne_of_pred hc digit_facts.2.2.2.2 this.1
+
+theorem parseHeader_render {num name : List Char} (hnum : okWord Char.isDigit num = true)
+    (hname : okWord isVarChar name = true) : parseHeader (num ++ ':' :: name) = some name := by
+  obtain ⟨n1, n2⟩ := okWord_iff.1 hnum
+  obtain ⟨v1, v2⟩ := okWord_iff.1 hname
+  have s3 : scanWords [isVarChar] name = some [name] := by
+    have := scanWords_word (p := isVarChar) (ps := []) (w := name) (rest := []) v1 v2
+      (fun c hc => notWs_of_pred (v2 c hc) var_facts.1 var_facts.2.1) (fun c r h => nomatch h)
+    simpa [scanWords_end] using this
+  have s2 : scanWords [(· == ':'), isVarChar] (':' :: name) = some [[':'], name] := by
+    have := scanWords_word (p := (· == ':')) (ps := [isVarChar]) (w := [':']) (rest := name) (by simp)
+      (by simp) (by simp [isWs])
+      (fun c r h => by
+        have : isVarChar c = true := v2 c (by rw [h]; exact List.mem_cons_self)
+        exact beq_false_of_ne (ne_of_pred this var_facts.2.2.2))
+    simpa [s3] using this
+  have s1 : scanWords [Char.isDigit, (· == ':'), isVarChar] (num ++ ':' :: name) = some [num, [':'], name] := by
+    have := scanWords_word (p := Char.isDigit) (ps := [(· == ':'), isVarChar]) (w := num) (rest := ':' :: name) n1 n2
+      (fun c hc => notWs_of_pred (n2 c hc) digit_facts.1 digit_facts.2.1)
+      (fun c r h => by cases h; exact digit_facts.2.2.2.1)
+    simpa [s2] using this
+  simp only [parseHeader, s1]
+
+theorem scanStruct_render {w : List Char} (h : okWord isStructChar w = true) :
+    scanWords [isStructChar] w = some [w] := by
+  obtain ⟨v1, v2⟩ := okWord_iff.1 h
+  have := scanWords_word (p := isStructChar) (ps := []) (w := w) (rest := []) v1 v2
+    (fun c hc => notWs_of_pred (v2 c hc) struct_facts.1 struct_facts.2.1) (fun c r h => nomatch h)
+  simpa [scanWords_end] using this
+
+theorem scanSeqLine_render {alpha : List Char} (ha : okAlpha alpha = true) {sq f1 f2 f3 : List Char}
+    (hsq : okWord (alpha.contains ·) sq = true) (h1 : okWord isNumChar f1 = true)
+    (h2 : okWord isNumChar f2 = true) (h3 : okWord Char.isDigit f3 = true) :
+    scanWords [(alpha.contains ·), isNumChar, isNumChar, Char.isDigit]
+      (sq ++ [f1, f2, f3].flatMap (' ' :: ·)) = some [sq, f1, f2, f3] := by
+  obtain ⟨a1, a2⟩ := okWord_iff.1 hsq
+  obtain ⟨b1, b2⟩ := okWord_iff.1 h1
+  obtain ⟨c1, c2⟩ := okWord_iff.1 h2
+  obtain ⟨d1, d2⟩ := okWord_iff.1 h3
+  obtain ⟨al1, al2, _⟩ := alpha_facts ha
+  have e : sq ++ [f1, f2, f3].flatMap (' ' :: ·) = sq ++ (' ' :: (f1 ++ (' ' :: (f2 ++ (' ' :: (f3 ++ [])))))) := by
+    simp
+  rw [e]
+  have s4 : scanWords [Char.isDigit] (' ' :: (f3 ++ [])) = some [f3] := by
+    have := scanWords_blank_word (p := Char.isDigit) (ps := []) (w := f3) (rest := []) d1 d2
+      (fun c hc => notWs_of_pred (d2 c hc) digit_facts.1 digit_facts.2.1) (fun c r h => nomatch h)
+    simpa [scanWords_end] using this
+  have s3 : scanWords [isNumChar, Char.isDigit] (' ' :: (f2 ++ (' ' :: (f3 ++ [])))) = some [f2, f3] := by
+    have := scanWords_blank_word (p := isNumChar) (ps := [Char.isDigit]) (w := f2) (rest := ' ' :: (f3 ++ [])) c1 c2
+      (fun c hc => notWs_of_pred (c2 c hc) num_facts.1 num_facts.2.1)
+      (fun c r h => by cases h; exact num_facts.1)
+    rw [this, s4]; rfl
+  have s2 : scanWords [isNumChar, isNumChar, Char.isDigit] (' ' :: (f1 ++ (' ' :: (f2 ++ (' ' :: (f3 ++ []))))))
+      = some [f1, f2, f3] := by
+    have := scanWords_blank_word (p := isNumChar) (ps := [isNumChar, Char.isDigit]) (w := f1)
+      (rest := ' ' :: (f2 ++ (' ' :: (f3 ++ [])))) b1 b2
+      (fun c hc => notWs_of_pred (b2 c hc) num_facts.1 num_facts.2.1)
+      (fun c r h => by cases h; exact num_facts.1)
+    rw [this, s3]; rfl
+  have := scanWords_word (p := (alpha.contains ·)) (ps := [isNumChar, isNumChar, Char.isDigit]) (w := sq)
+    (rest := ' ' :: (f1 ++ (' ' :: (f2 ++ (' ' :: (f3 ++ [])))))) a1 a2
+    (fun c hc => notWs_of_pred (p := (alpha.contains ·)) (a2 c hc) al1 al2)
+    (fun c r h => by cases h; exact al1)
+  rw [this, s2]; rfl
+
+theorem scanTrailer_render {x : List Char} (hx : okWord isNumChar x = true) :
+    scanWords [isNumChar] (' ' :: x) = some [x] := by
+  obtain ⟨b1, b2⟩ := okWord_iff.1 hx
+  have := scanWords_blank_word (p := isNumChar) (ps := []) (w := x) (rest := []) b1 b2
+    (fun c hc => notWs_of_pred (b2 c hc) num_facts.1 num_facts.2.1) (fun c r h => nomatch h)
+  simpa [scanWords_end] using this
+
+/-- the record parser inverts the writer, line by line -/
+theorem parseRecords_render {alpha : List Char} (ha : okAlpha alpha = true) {total : List Char}
+    (ht : okWord isNumChar total = true) (hv : validFloat total = true)
+    (rs : List (List Char × Rec)) (hrs : ∀ x ∈ rs, wfRec alpha x = true) (fuel : Nat) (hf : rs.length < fuel) :
+    parseRecords alpha fuel (renderLines rs total) = some (rs.map (·.2)) := by
+  induction rs generalizing fuel with
+  | nil =>
+    cases fuel with
+    | zero => cases hf
+    | succ fuel =>
+      simp only [renderLines, List.flatMap_nil, List.nil_append, parseRecords]
+      have hd : (trailerPrefix ++ ' ' :: total).dropWhile isWs = trailerPrefix ++ ' ' :: total := by
+        rw [trailerPrefix_eq]; rfl
+      have htk : (trailerPrefix ++ ' ' :: total).take trailerPrefix.length = trailerPrefix := List.take_left
+      have hdr : (trailerPrefix ++ ' ' :: total).drop trailerPrefix.length = ' ' :: total := List.drop_left
+      simp [hd, htk, hdr, scanTrailer_render ht, hv]
+  | cons x r ih =>
+    cases fuel with
+    | zero => cases hf
+    | succ fuel =>
+      obtain ⟨num, rec⟩ := x
+      have hx := hrs _ List.mem_cons_self
+      simp only [wfRec, Bool.and_eq_true] at hx
+      obtain ⟨⟨⟨⟨⟨hnum, hname⟩, hseq⟩, hfields⟩, htg⟩, hmf⟩ := hx
+      obtain ⟨name, sq, fields, tg, mf⟩ := rec
+      simp only at hname hseq hfields htg hmf
+      split at hfields
+      · rename_i f1 f2 f3
+        simp only [Bool.and_eq_true] at hfields
+        obtain ⟨⟨⟨⟨hf1, hv1⟩, hf2⟩, hv2⟩, hf3⟩ := hfields
+        have ihr := ih (fun y hy => hrs y (List.mem_cons_of_mem _ hy)) fuel (by simp at hf; omega)
+        obtain ⟨n1, n2⟩ := okWord_iff.1 hnum
+        have hlines : renderLines ((num, ⟨name, sq, [f1, f2, f3], tg, mf⟩) :: r) total =
+            (num ++ ':' :: name) :: (sq ++ [f1, f2, f3].flatMap (' ' :: ·)) :: tg :: mf :: renderLines r total := by
+          simp [renderLines, renderRec]
+        rw [hlines]
+        have hnt : (((num ++ ':' :: name).dropWhile isWs).take trailerPrefix.length == trailerPrefix) = false := by
+          cases num with
+          | nil => exact absurd rfl n1
+          | cons c cs =>
+            have hc : c.isDigit = true := n2 c List.mem_cons_self
+            have : ((c :: cs) ++ ':' :: name).dropWhile isWs = c :: (cs ++ ':' :: name) := by
+              simp only [List.cons_append]
+              rw [List.dropWhile_cons_of_neg]
+              simp [notWs_of_pred hc digit_facts.1 digit_facts.2.1]
+            rw [this]
+            exact not_trailer hc
+        simp only [parseRecords, hnt, parseHeader_render hnum hname, scanSeqLine_render ha hseq hf1 hf2 hf3,
+          scanStruct_render htg, scanStruct_render hmf, hv1, hv2, ihr]
+        simp
+      · cases hfields
+
+theorem renderLines_length (rs : List (List Char × Rec)) (total : List Char) :
+    (renderLines rs total).length = 4 * rs.length + 1 := by
+  induction rs with
+  | nil => rfl
+  | cons x r ih =>
+    simp only [renderLines, List.flatMap_cons, List.length_append, List.length_cons, List.length_nil,
+      renderRec] at ih ⊢
+    omega
+
+theorem no_nl_of_pred {p : Char → Bool} {w : List Char} (h : ∀ c ∈ w, p c = true) (hp : p '\n' = false) :
+    ∀ c ∈ w, c ≠ '\n' := fun c hc => ne_of_pred (h c hc) hp
+
+theorem renderLines_no_nl {alpha : List Char} (ha : okAlpha alpha = true) {total : List Char}
+    (ht : okWord isNumChar total = true) (rs : List (List Char × Rec)) (hrs : ∀ x ∈ rs, wfRec alpha x = true) :
+    ∀ l ∈ renderLines rs total, ∀ c ∈ l, c ≠ '\n' := by
+  intro l hl c hc
+  simp only [renderLines, List.mem_append, List.mem_flatMap, List.mem_singleton] at hl
+  rcases hl with ⟨x, hx, hl⟩ | rfl
+  · have hw := hrs x hx
+    obtain ⟨num, name, sq, fields, tg, mf⟩ := x
+    simp only [wfRec, Bool.and_eq_true] at hw
+    obtain ⟨⟨⟨⟨⟨hnum, hname⟩, hseq⟩, hfields⟩, htg⟩, hmf⟩ := hw
+    have nnum := no_nl_of_pred (okWord_iff.1 hnum).2 digit_facts.2.2.1
+    have nname := no_nl_of_pred (okWord_iff.1 hname).2 var_facts.2.2.1
+    have nseq := no_nl_of_pred (p := (alpha.contains ·)) (okWord_iff.1 hseq).2 (alpha_facts ha).2.2
+    have ntg := no_nl_of_pred (okWord_iff.1 htg).2 struct_facts.2.2
+    have nmf := no_nl_of_pred (okWord_iff.1 hmf).2 struct_facts.2.2
+    simp only [renderRec, List.mem_cons, List.not_mem_nil, or_false] at hl
+    rcases hl with rfl | rfl | rfl | rfl
+    · rcases List.mem_append.1 hc with h | h
+      · exact nnum c h
+      · rcases List.mem_cons.1 h with rfl | h
+        · decide
+        · exact nname c h
+    · split at hfields
+      · rename_i f1 f2 f3
+        simp only [Bool.and_eq_true] at hfields
+        obtain ⟨⟨⟨⟨hf1, _⟩, hf2⟩, _⟩, hf3⟩ := hfields
+        have m1 := no_nl_of_pred (okWord_iff.1 hf1).2 num_facts.2.2
+        have m2 := no_nl_of_pred (okWord_iff.1 hf2).2 num_facts.2.2
+        have m3 := no_nl_of_pred (okWord_iff.1 hf3).2 digit_facts.2.2.1
+        simp only [List.flatMap_cons, List.flatMap_nil, List.mem_append, List.mem_cons, List.not_mem_nil,
+          or_false] at hc
+        rcases hc with h | (rfl | h) | (rfl | h) | (rfl | h)
+        · exact nseq c h
+        · decide
+        · exact m1 c h
+        · decide
+        · exact m2 c h
+        · decide
+        · exact m3 c h
+      · cases hfields
+    · exact ntg c hc
+    · exact nmf c hc
+  · rcases List.mem_append.1 hc with h | h
+    · intro hcn; subst hcn; revert h; decide
+    · rcases List.mem_cons.1 h with rfl | h
+      · decide
+      · exact no_nl_of_pred (okWord_iff.1 ht).2 num_facts.2.2 c h
+
+/-- reading what the writer wrote gives back the `name ↦ sequence` list, record by record -/
+theorem readDesign_render {alpha : List Char} (ha : okAlpha alpha = true) {total : List Char}
+    (ht : okWord isNumChar total = true) (hv : validFloat total = true)
+    (rs : List (List Char × Rec)) (hrs : ∀ x ∈ rs, wfRec alpha x = true) :
+    readDesign alpha (render rs total) = some (rs.map (fun x => (x.2.name, x.2.seq))) := by
+  have hsl : splitLines (render rs total) = renderLines rs total :=
+    splitLines_unlines (by simp [renderLines]) (renderLines_no_nl ha ht rs hrs)
+  simp only [readDesign, hsl]
+  rw [parseRecords_render ha ht hv rs hrs _ (by rw [renderLines_length]; omega)]
+  simp [List.map_map, Function.comp_def]
+
+/-! ### the saved state against the `.pil` written by the same compile (C16) -/
+
+open Pepper.Emit in
+/-- what a statement list declares, kind by kind -/
+def pilSeqDecls (l : List Pil.Stmt) : List (String × Nat) :=
+  l.filterMap (fun st => match st with | .seq n tpl => some (n, tpl.length) | _ => none)
+def pilSupDecls (l : List Pil.Stmt) : List (String × List String) :=
+  l.filterMap (fun st => match st with | .sup n items => some (n, items) | _ => none)
+def pilStrandDecls (l : List Pil.Stmt) : List (String × Bool × List String) :=
+  l.filterMap (fun st => match st with | .strand n dummy items => some (n, dummy, items) | _ => none)
+def pilStructDecls (l : List Pil.Stmt) : List (String × List String × List Char) :=
+  l.filterMap (fun st => match st with | .struct n _ strands s => some (n, strands, s) | _ => none)
+
+/-- the same four lists read off the saved component state -/
+def stSeqDecls (s : Comp.St) : List (String × Nat) :=
+  (s.baseSeqs.filter (·.len != 0)).map (fun e => (s.pfx ++ e.name, e.len))
+def stSupDecls (s : Comp.St) : List (String × List String) :=
+  (s.supSeqs.filter (·.len != 0)).map (fun e =>
+    (s.pfx ++ e.name, (e.items.filter (!·.dummy)).map (Emit.itemRaw s.pfx)))
+def stStrandDecls (s : Comp.St) : List (String × Bool × List String) :=
+  s.strands.map (fun e => (s.pfx ++ e.name, e.dummy, (e.items.filter (!·.dummy)).map (Emit.itemRaw s.pfx)))
+def stStructDecls (s : Comp.St) : List (String × List String × List Char) :=
+  s.structs.map (fun e => (s.pfx ++ e.name, e.strands.map (s.pfx ++ ·), e.struct))
+
+/-- the recorded length of an atomic sequence is the length of its constraint string (what
+    `Constraint.resolve` returns, `resolve_length`; an invariant of loaded components) -/
+def constLenB (s : Comp.St) : Bool := s.baseSeqs.all (fun e => e.const.length == e.len)
+
+theorem pilSeqDecls_append (a b : List Pil.Stmt) : pilSeqDecls (a ++ b) = pilSeqDecls a ++ pilSeqDecls b :=
+  List.filterMap_append
+theorem pilSupDecls_append (a b : List Pil.Stmt) : pilSupDecls (a ++ b) = pilSupDecls a ++ pilSupDecls b :=
+  List.filterMap_append
+theorem pilStrandDecls_append (a b : List Pil.Stmt) :
+    pilStrandDecls (a ++ b) = pilStrandDecls a ++ pilStrandDecls b := List.filterMap_append
+theorem pilStructDecls_append (a b : List Pil.Stmt) :
+    pilStructDecls (a ++ b) = pilStructDecls a ++ pilStructDecls b := List.filterMap_append
+
+theorem filterMap_fun_none {α γ} (l : List α) : l.filterMap (fun _ => (none : Option γ)) = [] := by
+  induction l with
+  | nil => rfl
+  | cons a r ih => simp [ih]
+
+theorem filterMap_fun_some {α γ} (k : α → γ) (l : List α) : l.filterMap (fun x => some (k x)) = l.map k := by
+  induction l with
+  | nil => rfl
+  | cons a r ih => simp [ih]
+
+theorem compStmts_seqDecls (s : Comp.St) (h : constLenB s = true) :
+    pilSeqDecls (Emit.compStmts s) = stSeqDecls s := by
+  simp only [constLenB, List.all_eq_true, beq_iff_eq] at h
+  simp only [Emit.compStmts, pilSeqDecls, stSeqDecls, List.filterMap_append, List.filterMap_map,
+    Function.comp_def, filterMap_fun_none, filterMap_fun_some, List.append_nil]
+  apply List.map_congr_left
+  intro e he
+  rw [h e (List.mem_filter.1 he).1]
+
+theorem compStmts_supDecls (s : Comp.St) : pilSupDecls (Emit.compStmts s) = stSupDecls s := by
+  simp only [Emit.compStmts, pilSupDecls, stSupDecls, List.filterMap_append, List.filterMap_map,
+    Function.comp_def, filterMap_fun_none, filterMap_fun_some, List.append_nil, List.nil_append]
+
+theorem compStmts_strandDecls (s : Comp.St) : pilStrandDecls (Emit.compStmts s) = stStrandDecls s := by
+  simp only [Emit.compStmts, pilStrandDecls, stStrandDecls, List.filterMap_append, List.filterMap_map,
+    Function.comp_def, filterMap_fun_none, filterMap_fun_some, List.append_nil, List.nil_append]
+
+theorem compStmts_structDecls (s : Comp.St) : pilStructDecls (Emit.compStmts s) = stStructDecls s := by
+  simp only [Emit.compStmts, pilStructDecls, stStructDecls, List.filterMap_append, List.filterMap_map,
+    Function.comp_def, filterMap_fun_none, filterMap_fun_some, List.append_nil, List.nil_append]
+
+/-! #### the whole tree -/
+
+mutual
+/-- all components of a tree in `System.components` order (no fuel) -/
+def allComps : Inst → List Comp.St
+  | .comp st => [st]
+  | .sys st => allCompsSys st
+def allCompsSys : SysSt → List Comp.St
+  | .mk _ _ _ _ _ _ components _ _ => allCompsList components
+def allCompsList : List (String × Inst) → List Comp.St
+  | [] => []
+  | (_, i) :: r => allComps i ++ allCompsList r
+end
+
+mutual
+/-- nesting depth of a tree -/
+def depth : Inst → Nat
+  | .comp _ => 0
+  | .sys st => depthSys st
+def depthSys : SysSt → Nat
+  | .mk _ _ _ _ _ _ components _ _ => depthList components
+def depthList : List (String × Inst) → Nat
+  | [] => 0
+  | (_, i) :: r => max (depth i + 1) (depthList r)
+end
+
+mutual
+/-- the sequences a tree's `.pil` declares: per component its non-dummy atomic sequences, and after the
+    components of each system one sequence per signal, of the signal's length -/
+def treeSeqDecls : Inst → List (String × Nat)
+  | .comp st => stSeqDecls st
+  | .sys st => treeSeqDeclsSys st
+def treeSeqDeclsSys : SysSt → List (String × Nat)
+  | .mk _ _ pfx _ signals lengths components _ _ =>
+    treeSeqDeclsList components ++ signals.map (fun x => (pfx ++ x.1, (lengths.lookup x.1).getD 0))
+def treeSeqDeclsList : List (String × Inst) → List (String × Nat)
+  | [] => []
+  | (_, i) :: r => treeSeqDecls i ++ treeSeqDeclsList r
+end
+
+mutual
+def allConstLen : Inst → Bool
+  | .comp st => constLenB st
+  | .sys st => allConstLenSys st
+def allConstLenSys : SysSt → Bool
+  | .mk _ _ _ _ _ _ components _ _ => allConstLenList components
+def allConstLenList : List (String × Inst) → Bool
+  | [] => true
+  | (_, i) :: r => allConstLen i && allConstLenList r
+end
+
+mutual
+/-- `compsOf` with enough fuel is the plain traversal -/
+theorem compsOf_allComps : ∀ (i : Inst) (fuel : Nat), depth i < fuel → compsOf fuel i = allComps i
+  | .comp st, fuel, h => by
+    cases fuel with
+    | zero => cases h
+    | succ f => simp [compsOf, allComps]
+  | .sys (.mk p n pf t sg l c is os), fuel, h => by
+    cases fuel with
+    | zero => cases h
+    | succ f =>
+      simp only [compsOf, allComps, allCompsSys, SysSt.components]
+      exact compsOf_allCompsList c f (by simp only [depth, depthSys] at h; omega)
+theorem compsOf_allCompsList : ∀ (c : List (String × Inst)) (fuel : Nat), depthList c ≤ fuel →
+    c.flatMap (fun x => compsOf fuel x.2) = allCompsList c
+  | [], _, _ => rfl
+  | (_, i) :: r, fuel, h => by
+    simp only [depthList] at h
+    simp only [List.flatMap_cons, allCompsList]
+    rw [compsOf_allComps i fuel (by omega), compsOf_allCompsList r fuel (by omega)]
+end
+
+/-- the signal statements a system appends after its components (the expression of `Emit.sysStmts`) -/
+def sigStmts (pfx : String) (signals : List (String × List SigEntry)) (lengths : List (String × Nat)) :
+    List Pil.Stmt :=
+  signals.flatMap (fun (sg, entries) =>
+      let len := (lengths.lookup sg).getD 0
+      [Pil.Stmt.seq (pfx ++ sg) (List.replicate len 'N'),
+       Pil.Stmt.equal ((pfx ++ sg) :: entries.map (fun e =>
+          (match e.port with
+           | .seq i _ => pfx ++ e.comp ++ "-" ++ i.name
+           | .sig n => pfx ++ e.comp ++ "-" ++ n) ++ (if e.wc then "*" else "")))])
+
+theorem sigStmts_decls (pfx : String) (signals : List (String × List SigEntry)) (lengths : List (String × Nat)) :
+    pilSeqDecls (sigStmts pfx signals lengths) = signals.map (fun x => (pfx ++ x.1, (lengths.lookup x.1).getD 0)) ∧
+    pilSupDecls (sigStmts pfx signals lengths) = [] ∧ pilStrandDecls (sigStmts pfx signals lengths) = [] ∧
+    pilStructDecls (sigStmts pfx signals lengths) = [] := by
+  induction signals with
+  | nil => exact ⟨rfl, rfl, rfl, rfl⟩
+  | cons a r ih =>
+    obtain ⟨sg, entries⟩ := a
+    obtain ⟨h1, h2, h3, h4⟩ := ih
+    simp only [sigStmts, List.flatMap_cons, List.map_cons] at h1 h2 h3 h4 ⊢
+    refine ⟨?_, ?_, ?_, ?_⟩
+    · rw [pilSeqDecls_append, h1]; simp [pilSeqDecls]
+    · rw [pilSupDecls_append, h2]; simp [pilSupDecls]
+    · rw [pilStrandDecls_append, h3]; simp [pilStrandDecls]
+    · rw [pilStructDecls_append, h4]; simp [pilStructDecls]
+
+theorem sysStmts_eq (p n pfx : String) (t : List (String × String)) (sg : List (String × List SigEntry))
+    (l : List (String × Nat)) (c : List (String × Inst)) (is os : List SigRef) :
+    Emit.sysStmts (.mk p n pfx t sg l c is os) = Emit.compsStmts c ++ sigStmts pfx sg l := by
+  simp only [Emit.sysStmts, sigStmts]
+  congr 2
+
+mutual
+/-- the declarations of a tree's `.pil`, kind by kind, are those of its saved components in order (plus one
+    sequence per signal) -/
+theorem instStmts_decls : ∀ (i : Inst),
+    (allConstLen i = true → pilSeqDecls (Emit.instStmts i) = treeSeqDecls i) ∧
+    pilSupDecls (Emit.instStmts i) = (allComps i).flatMap stSupDecls ∧
+    pilStrandDecls (Emit.instStmts i) = (allComps i).flatMap stStrandDecls ∧
+    pilStructDecls (Emit.instStmts i) = (allComps i).flatMap stStructDecls
+  | .comp st => by
+    simp only [Emit.instStmts, allComps, allConstLen, treeSeqDecls, List.flatMap_cons, List.flatMap_nil,
+      List.append_nil]
+    exact ⟨compStmts_seqDecls st, compStmts_supDecls st, compStmts_strandDecls st, compStmts_structDecls st⟩
+  | .sys (.mk p n pfx t sg l c is os) => by
+    obtain ⟨h1, h2, h3, h4⟩ := compsStmts_decls c
+    obtain ⟨g1, g2, g3, g4⟩ := sigStmts_decls pfx sg l
+    simp only [Emit.instStmts, sysStmts_eq, allComps, allCompsSys, allConstLen, allConstLenSys, treeSeqDecls,
+      treeSeqDeclsSys, pilSeqDecls_append, pilSupDecls_append, pilStrandDecls_append, pilStructDecls_append,
+      g1, g2, g3, g4, h2, h3, h4, List.append_nil]
+    exact ⟨fun hc => by rw [h1 hc], trivial, trivial, trivial⟩
+theorem compsStmts_decls : ∀ (c : List (String × Inst)),
+    (allConstLenList c = true → pilSeqDecls (Emit.compsStmts c) = treeSeqDeclsList c) ∧
+    pilSupDecls (Emit.compsStmts c) = (allCompsList c).flatMap stSupDecls ∧
+    pilStrandDecls (Emit.compsStmts c) = (allCompsList c).flatMap stStrandDecls ∧
+    pilStructDecls (Emit.compsStmts c) = (allCompsList c).flatMap stStructDecls
+  | [] => ⟨fun _ => rfl, rfl, rfl, rfl⟩
+  | (_, i) :: r => by
+    obtain ⟨h1, h2, h3, h4⟩ := instStmts_decls i
+    obtain ⟨k1, k2, k3, k4⟩ := compsStmts_decls r
+    simp only [Emit.compsStmts, allCompsList, allConstLenList, treeSeqDeclsList, pilSeqDecls_append,
+      pilSupDecls_append, pilStrandDecls_append, pilStructDecls_append, List.flatMap_append, h2, h3, h4, k2, k3,
+      k4, Bool.and_eq_true]
+    exact ⟨fun hc => by rw [h1 hc.1, k1 hc.2], trivial, trivial, trivial⟩
+end
 
 end Pepper.Finish
